@@ -219,6 +219,48 @@ def run_slow(m, rec, rng, base_id, per_exchange=1.25, others=3):
     return rec.take()
 
 
+def run_reconnect_probe(m, rec, rng, base_id, idle=3.4):
+    """A link failure, then a request whose reconnection fails, then the device is back: every device
+    exchange must still belong to the request being handled on the issuing thread (anything a background
+    helper does to the device on its own shows as an exchange outside any request, or interleaved)."""
+    allr = {}
+    st = {"k": 10}
+
+    def ask(rid, kind, fault=None, connect_failures=0, delay=0.0):
+        req, rst = make_request(rid, kind, rng)
+        allr[rid] = (kind, rst)
+        m.world.reset_counters()
+        if fault:
+            m.world.faults = {0: (fault,)}
+        m.world.connect_failures = connect_failures
+        m.device.exchange_delay = (lambda: time.sleep(delay)) if delay else None
+        ev, data = m.request(json.dumps(req).encode())
+        try:
+            return json.loads(data.decode()) if data else None
+        except Exception:
+            return None
+
+    def traffic(n, delay):
+        for _ in range(n):
+            rid = base_id + st["k"]
+            st["k"] += 1
+            kind = rng.choice(["blockchainState", "signerHeartbeat", "sign_hash"])
+            reply = ask(rid, kind, delay=delay)
+            rec.emit({"k": "got", "r": rid, "t": 0, "m": reply_owner(rid, kind, allr[rid][1], reply, m.device, allr)})
+    # (a) nobody asks anything while the device comes back
+    ask(base_id + 1, "getPubKey", fault="write")
+    ask(base_id + 2, "getPubKey", connect_failures=1)
+    time.sleep(idle)
+    traffic(3, 0.0)
+    # (b) a slow request is repairing the link around the time a helper armed in the failed attempt would act
+    ask(base_id + 3, "getPubKey", fault="read")
+    ask(base_id + 4, "getPubKey", connect_failures=1)
+    time.sleep(2.75)
+    traffic(2, 0.1)
+    m.device.exchange_delay = None
+    return rec.take()
+
+
 def run(ctx):
     res = core.Result()
     res.assumptions = [
@@ -287,6 +329,12 @@ def run(ctx):
         traces.append({"id": tid, "ev": slow_out["ev"]})
         info[tid] = {"scenario": "one request of 9 exchanges x 1.25 s with 3 clients queued behind it"}
         res.coverage["slow_request_scenarios"] = 1
+        tid = len(traces) + 1
+        # alone (getDongle is patched process-wide, and this scenario reconnects): the other managers are idle now
+        traces.append({"id": tid, "ev": run_reconnect_probe(m_slow, rec_slow, random.Random("probe:%d" % ctx.seed), 950000)})
+        info[tid] = {"scenario": "link failure, failed reconnection, then (a) 3.4 s idle and (b) a slow repairing "
+                                 "request 2.75 s later"}
+        res.coverage["reconnection_scenarios"] = 2
     finally:
         m.stop()
         slow_thread.join(200)
